@@ -23,6 +23,11 @@ ID_POOL = [0, 1, 2, 3, 'a', 'b', 1.0, True, None, {'k': 1}, {'k': 2}, {'k': 1, '
            {'j': 'a', 'k': 1}]
 
 
+def _dt_us(dt):
+    d = dt.replace(tzinfo=None) - EPOCH
+    return (d.days * 86400 + d.seconds) * 1000000 + d.microseconds
+
+
 def us_to_dt(us):
     return EPOCH + _dt.timedelta(microseconds=us)
 
@@ -380,18 +385,21 @@ def canon_out(out, oids):
     return wire.encs(out, oids)
 
 
-def run_python(history, oids, server_version='5.0.5', probe=None):
+def run_python(history, oids, server_version='5.0.5', probe=None, pre_probe=None):
     """[(outcome tokens, observation tokens, extra, outcome, observation)]; `probe(runner, op)`
     may add python-only measurements to `extra['probe']` after each step"""
     pr = PyRunner(server_version)
     res = []
     try:
         for op in history:
+            pre = pre_probe(pr, op[1] if op[0] == 'noobs' else op) if pre_probe else None
             if op[0] == 'noobs':
                 out, extra = pr.apply(op[1])
+                extra['pre'] = pre
                 res.append((canon_out(out, oids), '_', extra, out, None))
                 continue
             out, extra = pr.apply(op)
+            extra['pre'] = pre
             obs = pr.observe()
             if probe is not None:
                 extra['probe'] = probe(pr, op)
